@@ -4315,6 +4315,14 @@ class Device(utils.CompositeEventEmitter):
     async def disconnect(
         self, connection: Connection | ScoLink | CisLink, reason: int
     ) -> None:
+        # A link that is already gone will never report its disconnection
+        if connection not in (
+            self.connections.get(connection.handle),
+            self.sco_links.get(connection.handle),
+            self.cis_links.get(connection.handle),
+        ):
+            raise InvalidStateError('not connected')
+
         # Create a future so that we can wait for the disconnection's result
         pending_disconnection = asyncio.get_running_loop().create_future()
         connection.on(connection.EVENT_DISCONNECTION, pending_disconnection.set_result)
